@@ -271,3 +271,124 @@ func (in *Interp) learnBound(c T, val bool) {
 		}
 	}
 }
+
+// impliedBounds returns per-variable unsigned bounds implied by c being val.
+// And: intersection; Or: hull over variables bounded on both sides.
+func (in *Interp) impliedBounds(c T, val bool) map[*term.Term]urange {
+	full := func(v T) urange { return urange{0, maskW(v.W)} }
+	one := func(v T, lo, hi uint64) map[*term.Term]urange {
+		if v.Op != term.Var || v.W == 0 {
+			return nil
+		}
+		f := full(v)
+		if lo < f.lo {
+			lo = f.lo
+		}
+		if hi > f.hi {
+			hi = f.hi
+		}
+		return map[*term.Term]urange{v: {lo, hi}}
+	}
+	switch c.Op {
+	case term.Not:
+		return in.impliedBounds(c.A[0], !val)
+	case term.BAnd, term.BOr:
+		conj := (c.Op == term.BAnd) == val // behaves as a conjunction of (possibly negated) parts
+		a := in.impliedBounds(c.A[0], val)
+		b := in.impliedBounds(c.A[1], val)
+		out := map[*term.Term]urange{}
+		if conj {
+			for v, r := range a {
+				out[v] = r
+			}
+			for v, r := range b {
+				if o, ok := out[v]; ok {
+					out[v] = urange{maxU(o.lo, r.lo), minU(o.hi, r.hi)}
+				} else {
+					out[v] = r
+				}
+			}
+		} else {
+			for v, r := range a {
+				if o, ok := b[v]; ok {
+					out[v] = urange{minU(o.lo, r.lo), maxU(o.hi, r.hi)}
+				}
+			}
+		}
+		return out
+	case term.ULt:
+		x, y := c.A[0], c.A[1]
+		if y.Op == term.Const {
+			if val {
+				if y.Val == 0 {
+					return nil
+				}
+				return one(x, 0, y.Val-1)
+			}
+			return one(x, y.Val, ^uint64(0))
+		}
+		if x.Op == term.Const {
+			if val {
+				if x.Val == ^uint64(0) {
+					return nil
+				}
+				return one(y, x.Val+1, ^uint64(0))
+			}
+			return one(y, 0, x.Val)
+		}
+	case term.ULe:
+		x, y := c.A[0], c.A[1]
+		if y.Op == term.Const {
+			if val {
+				return one(x, 0, y.Val)
+			}
+			if y.Val == ^uint64(0) {
+				return nil
+			}
+			return one(x, y.Val+1, ^uint64(0))
+		}
+		if x.Op == term.Const {
+			if val {
+				return one(y, x.Val, ^uint64(0))
+			}
+			if x.Val == 0 {
+				return nil
+			}
+			return one(y, 0, x.Val-1)
+		}
+	case term.Eq:
+		if val && c.A[1].Op == term.Const {
+			return one(c.A[0], c.A[1].Val, c.A[1].Val)
+		}
+	}
+	return nil
+}
+
+func (in *Interp) learnImplied(c T, val bool) {
+	p := in.path
+	for v, r := range in.impliedBounds(c, val) {
+		if p.bounds == nil {
+			p.bounds = map[*term.Term]urange{}
+		}
+		b, ok := p.bounds[v]
+		if !ok {
+			b = urange{0, maskW(v.W)}
+		}
+		nb := urange{maxU(b.lo, r.lo), minU(b.hi, r.hi)}
+		if nb != b {
+			p.bounds[v] = nb
+			p.boundsVer++
+		}
+	}
+}
+
+// fold replaces a condition by a constant when facts/intervals settle it.
+func (in *Interp) fold(c T) T {
+	if c.Op == term.Const || in.path == nil {
+		return c
+	}
+	if v, ok := in.settled(c); ok {
+		return in.tb.Bool(v)
+	}
+	return c
+}
